@@ -63,6 +63,12 @@ reg("C04",
     "Trees are observed by own traversal (vf/obs.py), not by html5lib walkers. Two known findings are limitations of xml.dom.minidom (colon-bearing attribute / doctype names), modelled exactly by obs.minidom_colon_model.",
     "DESIGN.md §3 C04")
 
+reg("C16",
+    "differential property-based testing strict vs. non-strict parsing over generated markup soup and all truncations (EOF sites) of generated documents, plus a validity predicate over every recorded error",
+    "Exploration: strict mode must raise exactly html5parser.ParseError iff the non-strict parse recorded an error, with the first error's formatted message; every recorded error needs a template in constants.E that formats with its variables and a position inside the input; conforming generated documents must record none. Evidence lists the error codes reached (113 of 132). Held on everything explored.",
+    "Positions are judged against the newline-normalised input. Three defects found by this check were repaired in /repo (fix: commits).",
+    "DESIGN.md §3 C16")
+
 NOT_APPLICABLE = {}
 
 
